@@ -199,12 +199,16 @@ Definition do_types_overlap (s : sdocument) (t1 t2 : type_def) : bool :=
 (* ---- ValueExtension ---- *)
 
 
+(* f64 == on bit patterns: equal bits, or +0.0 / -0.0 (the parser cannot produce NaN) *)
+Definition float_is_zero (b : N) : bool := N.eqb b 0 || N.eqb b 9223372036854775808.
+Definition float_bits_eqb (x y : N) : bool := N.eqb x y || (float_is_zero x && float_is_zero y).
+
 Fixpoint value_compare (a b : value) {struct a} : bool :=
   match a, b with
   | VNull, VNull => true
   | VBool x, VBool y => Bool.eqb x y
   | VInt x, VInt y => Z.eqb x y
-  | VFloat x, VFloat y => N.eqb x y
+  | VFloat x, VFloat y => float_bits_eqb x y
   | VString x, VString y => String.eqb x y
   | VEnum x, VEnum y => name_eqb x y
   | VList x, VList y =>
